@@ -277,7 +277,19 @@ pub fn replay(cases: &str, seed: u64, out: &str) {
                 // log-linear and zero-rate curves need positive values; the other rules take any real number
                 let v = if i % 4 == 1 && !["log_linear", "linear_zero_rate"].contains(&rule.as_str()) { r.uniform(-2.0, 2.0) } else { rand_value(&mut r) };
                 match kinds[k % kinds.len()].as_str() {
-                    "D" => Number::Dual(Dual::try_new(v, vec![format!("own{}", k), "common".to_string()], vec![r.uniform(0.5, 2.0), r.uniform(-1.0, 1.0)]).unwrap()),
+                    // dual-valued nodes: their own names plus a common one; in every fifth case all on ONE shared list (u, v);
+                    // in every fourth case second-order numbers that carry curvature of their own (the Python-facing
+                    // constructor takes them as they are; CurveDF gets them converted to the order it is built at)
+                    "D" => {
+                        let vars = if i % 5 == 3 { vec!["u".to_string(), "v".to_string()] } else { vec![format!("own{}", k), "common".to_string()] };
+                        let g = vec![r.uniform(0.5, 2.0), r.uniform(-1.0, 1.0)];
+                        if i % 4 == 2 {
+                            let (a, b, c) = (r.uniform(-0.5, 0.5), r.uniform(-0.5, 0.5), r.uniform(-0.5, 0.5));
+                            Number::Dual2(Dual2::try_new(v, vars, g, vec![a, b, b, c]).unwrap())
+                        } else {
+                            Number::Dual(Dual::try_new(v, vars, g).unwrap())
+                        }
+                    }
                     _ => Number::F64(v),
                 }
             })
@@ -317,12 +329,26 @@ pub fn record(seed: u64, n: usize, out: &str) {
         let rule = r.pick(&RULES).to_string();
         let via = if r.coin() { "Curve" } else { "CurveDF" }.to_string();
         let dual_nodes = r.chance(0.3);
+        let shared_list = r.chance(0.3);
+        let curved = r.chance(0.4);
         let signed = r.chance(0.25) && !["log_linear", "linear_zero_rate"].contains(&rule.as_str());
         let mut vals: Vec<Number> = (0..nn)
             .map(|k| {
                 let v = if signed { r.uniform(-2.0, 2.0) } else { rand_value(&mut r) };
                 if dual_nodes && r.chance(0.6) {
-                    Number::Dual(Dual::try_new(v, vec![format!("z{}", k)], vec![r.uniform(0.5, 2.0)]).unwrap())
+                    if shared_list {
+                        let g = vec![r.uniform(0.5, 2.0), r.uniform(-1.0, 1.0)];
+                        if curved {
+                            let (a, b, c) = (r.uniform(-0.5, 0.5), r.uniform(-0.5, 0.5), r.uniform(-0.5, 0.5));
+                            Number::Dual2(Dual2::try_new(v, vec!["u".to_string(), "v".to_string()], g, vec![a, b, b, c]).unwrap())
+                        } else {
+                            Number::Dual(Dual::try_new(v, vec!["u".to_string(), "v".to_string()], g).unwrap())
+                        }
+                    } else if curved {
+                        Number::Dual2(Dual2::try_new(v, vec![format!("z{}", k)], vec![r.uniform(0.5, 2.0)], vec![r.uniform(-0.5, 0.5)]).unwrap())
+                    } else {
+                        Number::Dual(Dual::try_new(v, vec![format!("z{}", k)], vec![r.uniform(0.5, 2.0)]).unwrap())
+                    }
                 } else {
                     Number::F64(v)
                 }
